@@ -46,6 +46,9 @@ def case_strategy(draw, name):
     elif name == 'MMC':
       m['opts'] = dict(init=draw(st.sampled_from(['identity', 'covariance'])))
   d = m['desc']['d']
+  if name == 'LFDA' and draw(st.integers(0, 1)) == 0:
+    # LFDA accepts classes of any size: an extra class of 1-3 members (the relations must still hold)
+    m['desc']['sizes'] = list(m['desc']['sizes']) + [draw(st.sampled_from([1, 1, 2, 3]))]
   return dict(model=m, rel=rel, tseed=draw(st.integers(0, 10 ** 6)),
               tvec=[draw(st.integers(-2048, 2048)) for _ in range(d)],
               angles=[draw(st.floats(-3.1, 3.1, allow_nan=False)) for _ in range(max(1, d * (d - 1) // 2))],
@@ -211,4 +214,5 @@ def shards(tier):
 
 
 def run_shard(shard, tier, seed, stats, known_sigs):
-  return drive(check_c19, case_strategy(shard['est']), _B[tier], seed, stats, known_sigs, name='check_c19')
+  n = _B[tier] * (4 if shard['est'] in CLOSED else 1)     # closed-form learners are cheap: more cases
+  return drive(check_c19, case_strategy(shard['est']), n, seed, stats, known_sigs, name='check_c19')
